@@ -18,33 +18,41 @@
   `mixq b d u a x0 x1 = b x0 + d x1 + u (x0 a + x1 (1-a))` is `bi`/`di`/`ui` of the Rust text
   (`= P x0 + (1-P) x1`, `C14_mix`).  `Kq u a b0 d0 b1 d1 ay` is the closed form of the correction term:
   0 in Case I, `u·min (a(b0-b1)/ay) ((1-a)(d1-d0)/(1-ay))` in Case II,
-  `u·min ((1-a)(b1-b0)/ay) (a(d0-d1)/(1-ay))` in Case III.  The eight expressions of the Rust `match`
-  collapse to these (sub-branch 1 vs 2 only changes the textual form: `px` or `1-px` cancels).
+  `u·min ((1-a)(b1-b0)/ay) (a(d0-d1)/(1-ay))` in Case III.
 
-  Ties (repair 4d5bbb1 of the crate): outside Case I, `b0 == b1 || d0 == d1` is decided BEFORE the sub-case
-  comparison and gives `k = 0` (tag `.Tie`; `C14_tie`, on the closed domain).  The closed form is unchanged:
-  `Kq = 0` at a tie (`Kq_tie`), and that is also what the sub-cases reachable in exact arithmetic returned before
-  the repair (II.B.1/II.B.2 at `d0 = d1`, III.A.1/III.A.2 at `b0 = b1`); the repair matters for rounding, where the
-  comparison `pyx > r` can select the 0/0 of II.A.2 / III.B.2 (`SLV.Props.Pinned.C14_pinned_deduce_tie_nan`).
-  Consequently the branch theorems `C14_nonneg_IIB1/IIB2` now assume `d0 < d1` and `C14_nonneg_IIIA1/IIIA2` assume
-  `b0 < b1` (with `≤` the tie inputs satisfy their hypotheses but carry the tag `.Tie`); `IIA1/IIA2` and
-  `IIIB1/IIIB2` keep `≤`, their A- resp. B-condition excludes the tie.
+  The operator (repair b163717 of the crate) computes exactly that: `k = 0` in Case I, `k = ka.min(kb)` in Case II / III with
+  `ka = a u (b0-b1)/ay`, `kb = (1-a) u (d1-d0)/(1-ay)` (mirrored in Case III).  The only divisors are `ay` and `1 - ay`, so
+  the lift needs `0 < ay < 1` and NOTHING about the antecedent: `C14_closed_form_closed` / `C14_wf_closed` hold for every
+  well-formed antecedent (absolute, vacuous, `a ∈ {0,1}`, `P ∈ {0,1}` included), which is more than the property asks for;
+  the `Dom14` statements below are kept as they were.  Non-negativity of the result is immediate from `K ≤ ka`, `K ≤ kb`
+  and the cancellation identities `bI - b1 = P (b0-b1)`, `dI - d0 = (1-P)(d1-d0)`, .. (`C14_cancel`).
 
-  Division by zero: II.A.2 divides by `d1 - d0` and III.B.2 by `b1 - b0`, which the outer case condition
-  (and the tie arm) make non-zero; independently of the tie arm, on the open domain neither can vanish in its branch
-  (`C14_IIA_divisor_pos`, `C14_IIIB_divisor_pos`): the A-condition `pyx ≤ r` of Case II reads
-  `a(b0-b1)(1-ay) ≤ ay(1-a)(d1-d0)` with a strictly positive left side, and the B-condition of Case III
-  reads `(1-a)(b1-b0)(1-ay) > ay a(d0-d1) > 0`.  So the model never produces `nan`/`inf` on `Dom14` and
-  NO extra hypothesis is needed: all ten branches are proved (`C14_nonneg`), nothing is `_partial`.
-  (On the boundary the 0/0 does occur, e.g. at `P = 0` — `C14_boundary_P0_rejected` — but that is outside
-  the property's domain.  The former boundary witness with `a = 0` was a tie `d0 = d1`; it is accepted since the
-  repair: `C14_boundary_a0_tie_accepted`, and rejected by the pre-repair operator:
-  `SLV.Props.Pinned.C14_pinned_boundary_a0_rejected`.)
+  Justification of the repair: the operator that was in the crate before (`Pinned.deduceKNineBranch`: Case I, the tie arm
+  of repair 4d5bbb1, and eight closed forms II.A.1 .. III.B.2 selected by the comparisons `pyx > r`, `P > a`) returns the
+  SAME correction term on the open domain, ties included: `C14_K_eq_nine_branch`, `C14_eq_nine_branch` (each of the old
+  branches is lifted in SLV/Refine/C14Nine.lean: sub-branch 1 vs 2 only changes the textual form, `P` or `1-P` cancels;
+  sub-case A ⇔ `ka ≤ kb`).  In floating point they differ: the old closed forms contain the cancelling differences
+  `bI - b1`, .., quotients of two of them and rounding-decided sub-case selections, and reject results on plain decimal
+  operands (`SLV.Props.Pinned.C14_pinned_deduce_decimal_panics`).
+
+  Tags: `.I`, and in Case II / III the bound that `min` returned: `.IIA`/`.IIIA` = `ka` (belief bound, taken when
+  `ka ≤ kb` ⇔ `pyx ≤ r`), `.IIB`/`.IIIB` = `kb` (taken when `kb < ka` ⇔ `pyx > r`, which needs `0 < u`: for a dogmatic
+  antecedent both bounds are 0 and `min` returns its left operand): `C14_nonneg_IIA/IIB/IIIA/IIIB` (these replace the eight
+  theorems `C14_nonneg_IIA1 .. IIIB2` of the nine-branch operator).
+
+  Ties: `b0 = b1` or `d0 = d1` outside Case I makes one of the two bounds 0 and the other non-negative, so `k = 0`
+  (`C14_tie`, any well-formed antecedent, `0 < ay < 1`).  The tag of the former tie arm (`.Tie`) no longer occurs, and the
+  statement no longer covers `ay ∈ {0, 1}` (outside the property's domain): there the vanishing bound is 0/0 = NaN, which
+  `f64::min` skips, and `k` is the other bound -- `C14_tie_boundary_ay1` (accepted and well-formed, but `k ≠ 0`).
+
+  On the boundary `P = 0` (outside the property's domain) the nine-branch operator evaluated 0/0 and rejected
+  (`SLV.Props.Pinned.C14_pinned_boundary_P0_rejected`); the current operator accepts (`C14_boundary_P0_accepted`).
 
   The formerly failing Case III input of the pinned tree is `SLV.Props.Pinned.C14_repaired_accepts`
   (SLV/Props/Pinned.lean); it lies in `Dom14` and is covered by `C14_closed_form` (see `C14_repaired`).
 -/
 import SLV.Refine.C14Lemmas
+import SLV.Refine.C14Nine
 
 namespace SLV.Props.C14
 open SLV Scalar
@@ -52,7 +60,7 @@ open SLV.Props.C10 (BWF)
 
 variable {f : Fmt} {b d u a b0 d0 u0 b1 d1 u1 ay : ℚ}
 
-/-- closed forms of `k` in the eight non-trivial branches -/
+/-- the two bounds of Case II and of Case III (closed forms of `k` when that bound is the smaller one) -/
 local notation "K_IIA" => (a * u * (b0 - b1) / ay)
 local notation "K_IIB" => ((1 - a) * u * (d1 - d0) / (1 - ay))
 local notation "K_IIIA" => ((1 - a) * u * (b1 - b0) / ay)
@@ -87,6 +95,78 @@ theorem C14_wf (h : Dom14 b d u a b0 d0 u0 b1 d1 u1 ay) :
       (mixq b d u a d0 d1 - (1 - ay) * Kq u a b0 d0 b1 d1 ay)
       (mixq b d u a u0 u1 + Kq u a b0 d0 b1 d1 ay) ay ∧ 0 ≤ Kq u a b0 d0 b1 d1 ay :=
   ⟨res_bwf h.x h.c0 h.c1 h.hy0 h.hy1, Kq_nonneg h.x.ha0 h.x.ha1 h.x.hu h.hy0 h.hy1⟩
+
+/-- Closed-domain lift (stronger than the property asks for): `0 ≤ u` and `0 < ay < 1` suffice for the correction term -/
+theorem C14_K_lift_closed (hu : 0 ≤ u) (hy0 : 0 < ay) (hy1 : ay < 1) :
+    (BOp.deduceK (liftB (f := f) b d u a) (liftS b0 d0 u0) (liftS b1 d1 u1) (XQ.fin ay)).1
+      = XQ.fin (Kq u a b0 d0 b1 d1 ay) :=
+  deduceK_fst' hu hy0 hy1
+
+/-- Closed-domain master statement: EVERY well-formed antecedent (absolute, dogmatic, vacuous, `a ∈ {0,1}`, `P ∈ {0,1}`),
+    well-formed conditionals, `0 < ay < 1`: accepted, closed form. -/
+theorem C14_closed_form_closed (hx : BWF b d u a) (h0 : SWF3 b0 d0 u0) (h1 : SWF3 b1 d1 u1)
+    (hy0 : 0 < ay) (hy1 : ay < 1) :
+    (BOp.deduce (liftB (f := f) b d u a) (liftS b0 d0 u0) (liftS b1 d1 u1) (XQ.fin ay)).1
+      = .ok (liftB (mixq b d u a b0 b1 - ay * Kq u a b0 d0 b1 d1 ay)
+          (mixq b d u a d0 d1 - (1 - ay) * Kq u a b0 d0 b1 d1 ay)
+          (mixq b d u a u0 u1 + Kq u a b0 d0 b1 d1 ay) ay) := by
+  rw [deduce_ok' hx h0 h1 hy0 hy1]
+
+/-- … and that result is well-formed -/
+theorem C14_wf_closed (hx : BWF b d u a) (h0 : SWF3 b0 d0 u0) (h1 : SWF3 b1 d1 u1)
+    (hy0 : 0 < ay) (hy1 : ay < 1) :
+    BWF (mixq b d u a b0 b1 - ay * Kq u a b0 d0 b1 d1 ay)
+      (mixq b d u a d0 d1 - (1 - ay) * Kq u a b0 d0 b1 d1 ay)
+      (mixq b d u a u0 u1 + Kq u a b0 d0 b1 d1 ay) ay ∧ 0 ≤ Kq u a b0 d0 b1 d1 ay :=
+  ⟨res_bwf hx h0 h1 hy0 hy1, Kq_nonneg hx.ha0 hx.ha1 hx.hu hy0 hy1⟩
+
+/-! ### 0b. the repair b163717 is an identity in exact arithmetic -/
+
+/-- The cancellation identities behind `K = min(ka, kb)`: with `P = b + a u`,
+    `bI - b1 = P (b0 - b1)`, `dI - d0 = (1-P)(d1 - d0)`, `bI - b0 = (1-P)(b1 - b0)`, `dI - d1 = P (d0 - d1)`. -/
+theorem C14_cancel (hs : b + d + u = 1) :
+    mixq b d u a b0 b1 - b1 = (b + a * u) * (b0 - b1) ∧
+    mixq b d u a d0 d1 - d0 = (1 - (b + a * u)) * (d1 - d0) ∧
+    mixq b d u a b0 b1 - b0 = (1 - (b + a * u)) * (b1 - b0) ∧
+    mixq b d u a d0 d1 - d1 = (b + a * u) * (d0 - d1) := by
+  rw [mixq_eq hs, mixq_eq hs]
+  refine ⟨?_, ?_, ?_, ?_⟩ <;> ring
+
+/-- On the open domain the correction term of the current operator (`min` of the two active bounds) EQUALS the one of the
+    nine-branch operator it replaced (Case I, tie arm, II.A.1 .. III.B.2), whatever branch the latter takes -- ties
+    included, where both are 0.  Machine-checked justification of repair b163717. -/
+theorem C14_K_eq_nine_branch (h : Dom14 b d u a b0 d0 u0 b1 d1 u1 ay) :
+    (BOp.deduceK (liftB (f := f) b d u a) (liftS b0 d0 u0) (liftS b1 d1 u1) (XQ.fin ay)).1
+      = (Pinned.deduceKNineBranch (liftB (f := f) b d u a) (liftS b0 d0 u0) (liftS b1 d1 u1) (XQ.fin ay)).1 := by
+  rw [deduceK_fst h, nineK_fst h]
+
+/-- … hence the two operators return the same opinion on the open domain -/
+theorem C14_eq_nine_branch (h : Dom14 b d u a b0 d0 u0 b1 d1 u1 ay) :
+    (BOp.deduce (liftB (f := f) b d u a) (liftS b0 d0 u0) (liftS b1 d1 u1) (XQ.fin ay)).1
+      = (Pinned.deduceNineBranch (liftB (f := f) b d u a) (liftS b0 d0 u0) (liftS b1 d1 u1) (XQ.fin ay)).1 := by
+  have w := res_bwf h.x h.c0 h.c1 h.hy0 h.hy1
+  have e := nineK_fst (f := f) h
+  rw [deduce_ok h]
+  unfold Pinned.deduceNineBranch
+  simp only [e, XQ.one_def, XQ.sub_fin, XQ.mul_fin, XQ.add_fin]
+  exact (BOp.tryNew_fin_ok w.hb w.hd w.hu w.hs w.ha0 w.ha1).symm
+
+/-- Repair d46c983 (the result is divided by `s = b + d + u` before the checked constructor) is an identity in exact
+    arithmetic: for every well-formed antecedent, well-formed conditionals and `0 < ay < 1` the normaliser is exactly 1
+    (`C14_sum_algebra`) and the operator returns what the un-normalised one (`Pinned.deduceUnnorm`) returned.  In floating
+    point the un-normalised result leaves the window of the self-check about once per million calls
+    (`SLV.Props.Pinned.C14_pinned_deduce_unnorm_rejected`). -/
+theorem C14_eq_unnormalised (hx : BWF b d u a) (h0 : SWF3 b0 d0 u0) (h1 : SWF3 b1 d1 u1)
+    (hy0 : 0 < ay) (hy1 : ay < 1) :
+    BOp.deduce (liftB (f := f) b d u a) (liftS b0 d0 u0) (liftS b1 d1 u1) (XQ.fin ay)
+      = Pinned.deduceUnnorm (liftB (f := f) b d u a) (liftS b0 d0 u0) (liftS b1 d1 u1) (XQ.fin ay) := by
+  have w := res_bwf hx h0 h1 hy0 hy1
+  have e := deduceK_fst' (f := f) (b := b) (d := d) (a := a) (b0 := b0) (d0 := d0) (u0 := u0) (b1 := b1) (d1 := d1)
+    (u1 := u1) hx.hu hy0 hy1
+  rw [deduce_ok' hx h0 h1 hy0 hy1]
+  unfold Pinned.deduceUnnorm
+  simp only [e, XQ.one_def, XQ.sub_fin, XQ.mul_fin, XQ.add_fin]
+  exact Prod.ext (BOp.tryNew_fin_ok w.hb w.hd w.hu w.hs w.ha0 w.ha1).symm rfl
 
 /-! ### 1. base rate, additivity, projected probability -/
 
@@ -155,30 +235,42 @@ theorem C14_case1 (hx : BWF b d u a) (h0 : SWF3 b0 d0 u0) (h1 : SWF3 b1 d1 u1)
   refine ⟨?_, w⟩
   have hK := deduceK_I (f := f) (b := b) (d := d) (u := u) (a := a) (u0 := u0) (u1 := u1) (ay := ay) hI
   rw [Kq_I hI] at hK
-  rw [deduce_fin_of_K (by rw [hK]), hK]
+  rw [deduce_fin_of_K w.hs (by rw [hK]), hK]
   simp only [mul_zero, sub_zero, add_zero]
   rw [BOp.tryNew_fin_ok w.hb w.hd w.hu w.hs w.ha0 w.ha1]
 
-/-! ### 2b. the tie arm -/
+/-! ### 2b. ties -/
 
-/-- Tie arm (repair 4d5bbb1): outside Case I, if the conditionals tie in belief or in disbelief then `k = 0` without
-    any comparison of `pyx` with `r` and without any division; the result `(bI, dI, uI; ay)` is accepted and
-    well-formed, and it is the closed form (`Kq = 0`).  Like Case I this holds on the closed domain: any well-formed
-    antecedent (absolute ones, `a = 0`, `a = 1` included), any `0 ≤ ay ≤ 1`. -/
+/-- Ties: outside Case I, if the conditionals tie in belief or in disbelief then one of the two bounds is 0 and the other is
+    non-negative: `k = 0`, the result `(bI, dI, uI; ay)` is accepted and well-formed, and it is the closed form (`Kq = 0`).
+    Any well-formed antecedent (absolute ones, `a = 0`, `a = 1` included), `0 < ay < 1`.
+    (STATEMENT CHANGED with repair b163717: the result is stated for the opinion only -- the tag `.Tie` of the former tie
+    arm does not exist any more, the tag is `.IIA`/`.IIB`/`.IIIA`/`.IIIB` depending on which bound vanishes --, and `ay` is
+    strictly inside (0, 1): at `ay ∈ {0, 1}` the vanishing bound is 0/0, see `C14_tie_boundary_ay1`.) -/
 theorem C14_tie (hx : BWF b d u a) (h0 : SWF3 b0 d0 u0) (h1 : SWF3 b1 d1 u1)
-    (hy0 : 0 ≤ ay) (hy1 : ay ≤ 1) (hI : ¬(b1 < b0 ↔ d1 < d0)) (ht : b0 = b1 ∨ d0 = d1) :
-    BOp.deduce (liftB (f := f) b d u a) (liftS b0 d0 u0) (liftS b1 d1 u1) (XQ.fin ay)
-      = (.ok (liftB (mixq b d u a b0 b1) (mixq b d u a d0 d1) (mixq b d u a u0 u1) ay), .Tie) ∧
+    (hy0 : 0 < ay) (hy1 : ay < 1) (_hI : ¬(b1 < b0 ↔ d1 < d0)) (ht : b0 = b1 ∨ d0 = d1) :
+    (BOp.deduce (liftB (f := f) b d u a) (liftS b0 d0 u0) (liftS b1 d1 u1) (XQ.fin ay)).1
+      = .ok (liftB (mixq b d u a b0 b1) (mixq b d u a d0 d1) (mixq b d u a u0 u1) ay) ∧
     BWF (mixq b d u a b0 b1) (mixq b d u a d0 d1) (mixq b d u a u0 u1) ay ∧
     Kq u a b0 d0 b1 d1 ay = 0 := by
-  have w : BWF (mixq b d u a b0 b1) (mixq b d u a d0 d1) (mixq b d u a u0 u1) ay :=
-    ⟨mixq_nonneg hx h0.hb h1.hb, mixq_nonneg hx h0.hd h1.hd, mixq_nonneg hx h0.hu h1.hu,
-      mixq_sum hx.hs h0.hs h1.hs, hy0, hy1⟩
-  refine ⟨?_, w, Kq_tie hx.ha0 hy0 hy1 ht⟩
-  have hK := deduceK_Tie0 (f := f) (b := b) (d := d) (u := u) (a := a) (u0 := u0) (u1 := u1) (ay := ay) hI ht
-  rw [deduce_fin_of_K (by rw [hK]), hK]
-  simp only [mul_zero, sub_zero, add_zero]
-  rw [BOp.tryNew_fin_ok w.hb w.hd w.hu w.hs w.ha0 w.ha1]
+  have hK := Kq_tie (u := u) hx.ha0 hy0.le hy1.le ht
+  have w := res_bwf hx h0 h1 hy0 hy1
+  have c := C14_closed_form_closed (f := f) hx h0 h1 hy0 hy1
+  rw [hK] at w c
+  simp only [mul_zero, sub_zero, add_zero] at w c
+  exact ⟨c, w, hK⟩
+
+/-- Remark (outside the property's domain, `ay = 1`): at a tie `d0 = d1` in Case II the disbelief bound is
+    `(1-a) u (d1-d0)/(1-ay) = 0/0 = NaN`; `f64::min` skips it and `k` is the belief bound `a u (b0-b1)/ay`, not 0 (the
+    constraint on the disbelief is vacuous at `ay = 1`).  x = (1/4, 1/4, 1/2; 1/2), y|x = (1/2, 1/4, 1/4),
+    y|¬x = (1/4, 1/4, 1/2): accepted, `k = 1/16`, result (3/8 - 1/16, 1/4, 3/8 + 1/16; 1).  The nine-branch operator's
+    tie arm returned `k = 0` here. -/
+theorem C14_tie_boundary_ay1 :
+    (match BOp.deduce (liftB (f := .f64) (1/4) (1/4) (1/2) (1/2)) (liftS (1/2) (1/4) (1/4))
+        (liftS (1/4) (1/4) (1/2)) (XQ.fin 1) with
+      | (.ok r, .IIA) => decide (r.b = XQ.fin (5/16) ∧ r.d = XQ.fin (1/4) ∧ r.u = XQ.fin (7/16) ∧ r.a = XQ.fin 1)
+      | _ => false) = true := by
+  decide +kernel
 
 /-! ### 3. dogmatic antecedent -/
 
@@ -196,16 +288,14 @@ theorem C14_dogmatic (h : Dom14 b d 0 a b0 d0 u0 b1 d1 u1 ay) :
   simp only [e, mul_zero, sub_zero, add_zero] at w c
   exact ⟨c, w⟩
 
-/-! ### 4. the eight sub-cases of Case II / III -/
+/-! ### 4. Case II / III per active bound -/
 
-/-- the divisor `d1 - d0` of Case II.A.2 is strictly positive whenever the A-branch of Case II is
-    taken: the 0/0 of the Rust expression cannot occur on the open domain -/
+/-- whenever sub-case A of Case II holds (`pyx ≤ r`), `d0 < d1` -/
 theorem C14_IIA_divisor_pos (h : Dom14 b d u a b0 d0 u0 b1 d1 u1 ay) (hb : b1 < b0)
     (hA : pyxq a b0 u0 b1 u1 ay ≤ rII d0 b1 ay) : 0 < d1 - d0 :=
   sub_pos.mpr (h.IIA_strict hb hA)
 
-/-- the divisor `b1 - b0` of Case III.B.2 is strictly positive whenever the B-branch of Case III is
-    taken -/
+/-- whenever sub-case B of Case III holds (`pyx > r`), `b0 < b1` -/
 theorem C14_IIIB_divisor_pos (h : Dom14 b d u a b0 d0 u0 b1 d1 u1 ay) (hd : d1 < d0)
     (hB : rIII b0 d1 ay < pyxq a b0 u0 b1 u1 ay) : 0 < b1 - b0 :=
   sub_pos.mpr (h.IIIB_strict hd hB)
@@ -214,106 +304,65 @@ section cases
 variable (h : Dom14 b d u a b0 d0 u0 b1 d1 u1 ay)
 include h
 
-/-- Case II.A.1: `b0 > b1`, `d0 ≤ d1`, `pyx ≤ r`, `P ≤ a`; `k = a u (b0-b1)/ay` -/
-theorem C14_nonneg_IIA1 (hb : b1 < b0) (hd : d0 ≤ d1) (hA : pyxq a b0 u0 b1 u1 ay ≤ rII d0 b1 ay)
-    (hP : b + a * u ≤ a) :
+/-- Case II, sub-case A: `b0 > b1`, `d0 ≤ d1`, `pyx ≤ r` (⇔ `ka ≤ kb`); `k = ka = a u (b0-b1)/ay`, tag `.IIA` -/
+theorem C14_nonneg_IIA (hb : b1 < b0) (hd : d0 ≤ d1) (hA : pyxq a b0 u0 b1 u1 ay ≤ rII d0 b1 ay) :
     BOp.deduce (liftB (f := f) b d u a) (liftS b0 d0 u0) (liftS b1 d1 u1) (XQ.fin ay)
       = (.ok (liftB (mixq b d u a b0 b1 - ay * K_IIA) (mixq b d u a d0 d1 - (1 - ay) * K_IIA)
-          (mixq b d u a u0 u1 + K_IIA) ay), .IIA1) ∧
+          (mixq b d u a u0 u1 + K_IIA) ay), .IIA) ∧
     0 ≤ K_IIA ∧
     BWF (mixq b d u a b0 b1 - ay * K_IIA) (mixq b d u a d0 d1 - (1 - ay) * K_IIA)
       (mixq b d u a u0 u1 + K_IIA) ay :=
-  deduce_case h (deduceK_IIA1 h hb hd hA hP)
-    (Kq_IIA h.hy0 h.hy1 hb hd (by linarith [pyx_sub_rII (a := a) (ay := ay) h.c0.hs h.c1.hs]))
+  have hA' : a * (b0 - b1) * (1 - ay) ≤ ay * (1 - a) * (d1 - d0) := by
+    linarith [pyx_sub_rII (a := a) (ay := ay) h.c0.hs h.c1.hs]
+  deduce_case h (deduceK_IIA h.x.hu h.hy0 h.hy1 hb hd hA') (Kq_IIA h.hy0 h.hy1 hb hd hA')
 
-/-- Case II.A.2: `b0 > b1`, `d0 ≤ d1`, `pyx ≤ r`, `P > a`; same `k` (the factor `(d1-d0)(1-P)` cancels) -/
-theorem C14_nonneg_IIA2 (hb : b1 < b0) (hd : d0 ≤ d1) (hA : pyxq a b0 u0 b1 u1 ay ≤ rII d0 b1 ay)
-    (hP : a < b + a * u) :
-    BOp.deduce (liftB (f := f) b d u a) (liftS b0 d0 u0) (liftS b1 d1 u1) (XQ.fin ay)
-      = (.ok (liftB (mixq b d u a b0 b1 - ay * K_IIA) (mixq b d u a d0 d1 - (1 - ay) * K_IIA)
-          (mixq b d u a u0 u1 + K_IIA) ay), .IIA2) ∧
-    0 ≤ K_IIA ∧
-    BWF (mixq b d u a b0 b1 - ay * K_IIA) (mixq b d u a d0 d1 - (1 - ay) * K_IIA)
-      (mixq b d u a u0 u1 + K_IIA) ay :=
-  deduce_case h (deduceK_IIA2 h hb hd hA hP)
-    (Kq_IIA h.hy0 h.hy1 hb hd (by linarith [pyx_sub_rII (a := a) (ay := ay) h.c0.hs h.c1.hs]))
-
-/-- Case II.B.1: `b0 > b1`, `d0 < d1`, `pyx > r`, `P ≤ a`; `k = (1-a) u (d1-d0)/(1-ay)`.
-    (`d0 < d1`, not `≤`: since repair 4d5bbb1 the tie `d0 = d1` is taken by the tie arm, `C14_tie`.) -/
-theorem C14_nonneg_IIB1 (hb : b1 < b0) (hd : d0 < d1) (hB : rII d0 b1 ay < pyxq a b0 u0 b1 u1 ay)
-    (hP : b + a * u ≤ a) :
+/-- Case II, sub-case B: `b0 > b1`, `d0 ≤ d1`, `pyx > r` (⇔ `kb < ka`), non-dogmatic antecedent;
+    `k = kb = (1-a) u (d1-d0)/(1-ay)`, tag `.IIB` -/
+theorem C14_nonneg_IIB (hu : 0 < u) (hb : b1 < b0) (hd : d0 ≤ d1) (hB : rII d0 b1 ay < pyxq a b0 u0 b1 u1 ay) :
     BOp.deduce (liftB (f := f) b d u a) (liftS b0 d0 u0) (liftS b1 d1 u1) (XQ.fin ay)
       = (.ok (liftB (mixq b d u a b0 b1 - ay * K_IIB) (mixq b d u a d0 d1 - (1 - ay) * K_IIB)
-          (mixq b d u a u0 u1 + K_IIB) ay), .IIB1) ∧
+          (mixq b d u a u0 u1 + K_IIB) ay), .IIB) ∧
     0 ≤ K_IIB ∧
     BWF (mixq b d u a b0 b1 - ay * K_IIB) (mixq b d u a d0 d1 - (1 - ay) * K_IIB)
       (mixq b d u a u0 u1 + K_IIB) ay :=
-  deduce_case h (deduceK_IIB1 h hb hd hB hP)
-    (Kq_IIB h.hy0 h.hy1 hb hd.le (by linarith [pyx_sub_rII (a := a) (ay := ay) h.c0.hs h.c1.hs]))
+  have hB' : ay * (1 - a) * (d1 - d0) < a * (b0 - b1) * (1 - ay) := by
+    linarith [pyx_sub_rII (a := a) (ay := ay) h.c0.hs h.c1.hs]
+  deduce_case h (deduceK_IIB h.x.hu h.hy0 h.hy1 hu hb hd hB') (Kq_IIB h.hy0 h.hy1 hb hd hB'.le)
 
-/-- Case II.B.2: `b0 > b1`, `d0 < d1`, `pyx > r`, `P > a`; same `k` -/
-theorem C14_nonneg_IIB2 (hb : b1 < b0) (hd : d0 < d1) (hB : rII d0 b1 ay < pyxq a b0 u0 b1 u1 ay)
-    (hP : a < b + a * u) :
-    BOp.deduce (liftB (f := f) b d u a) (liftS b0 d0 u0) (liftS b1 d1 u1) (XQ.fin ay)
-      = (.ok (liftB (mixq b d u a b0 b1 - ay * K_IIB) (mixq b d u a d0 d1 - (1 - ay) * K_IIB)
-          (mixq b d u a u0 u1 + K_IIB) ay), .IIB2) ∧
-    0 ≤ K_IIB ∧
-    BWF (mixq b d u a b0 b1 - ay * K_IIB) (mixq b d u a d0 d1 - (1 - ay) * K_IIB)
-      (mixq b d u a u0 u1 + K_IIB) ay :=
-  deduce_case h (deduceK_IIB2 h hb hd hB hP)
-    (Kq_IIB h.hy0 h.hy1 hb hd.le (by linarith [pyx_sub_rII (a := a) (ay := ay) h.c0.hs h.c1.hs]))
-
-/-- Case III.A.1: `b0 < b1`, `d0 > d1`, `pyx ≤ r`, `P ≤ a`; `k = (1-a) u (b1-b0)/ay`.
-    (`b0 < b1`, not `≤`: since repair 4d5bbb1 the tie `b0 = b1` is taken by the tie arm, `C14_tie`.) -/
-theorem C14_nonneg_IIIA1 (hb : b0 < b1) (hd : d1 < d0) (hA : pyxq a b0 u0 b1 u1 ay ≤ rIII b0 d1 ay)
-    (hP : b + a * u ≤ a) :
+/-- Case III, sub-case A: `b0 ≤ b1`, `d0 > d1`, `pyx ≤ r` (⇔ `ka ≤ kb`); `k = ka = (1-a) u (b1-b0)/ay`, tag `.IIIA` -/
+theorem C14_nonneg_IIIA (hb : b0 ≤ b1) (hd : d1 < d0) (hA : pyxq a b0 u0 b1 u1 ay ≤ rIII b0 d1 ay) :
     BOp.deduce (liftB (f := f) b d u a) (liftS b0 d0 u0) (liftS b1 d1 u1) (XQ.fin ay)
       = (.ok (liftB (mixq b d u a b0 b1 - ay * K_IIIA) (mixq b d u a d0 d1 - (1 - ay) * K_IIIA)
-          (mixq b d u a u0 u1 + K_IIIA) ay), .IIIA1) ∧
+          (mixq b d u a u0 u1 + K_IIIA) ay), .IIIA) ∧
     0 ≤ K_IIIA ∧
     BWF (mixq b d u a b0 b1 - ay * K_IIIA) (mixq b d u a d0 d1 - (1 - ay) * K_IIIA)
       (mixq b d u a u0 u1 + K_IIIA) ay :=
-  deduce_case h (deduceK_IIIA1 h hb hd hA hP)
-    (Kq_IIIA h.hy0 h.hy1 hb.le hd (by linarith [pyx_sub_rIII (a := a) (ay := ay) h.c0.hs h.c1.hs]))
+  have hA' : (1 - a) * (b1 - b0) * (1 - ay) ≤ ay * a * (d0 - d1) := by
+    linarith [pyx_sub_rIII (a := a) (ay := ay) h.c0.hs h.c1.hs]
+  deduce_case h (deduceK_IIIA h.x.hu h.hy0 h.hy1 hb hd hA') (Kq_IIIA h.hy0 h.hy1 hb hd hA')
 
-/-- Case III.A.2: `b0 < b1`, `d0 > d1`, `pyx ≤ r`, `P > a`; same `k` -/
-theorem C14_nonneg_IIIA2 (hb : b0 < b1) (hd : d1 < d0) (hA : pyxq a b0 u0 b1 u1 ay ≤ rIII b0 d1 ay)
-    (hP : a < b + a * u) :
-    BOp.deduce (liftB (f := f) b d u a) (liftS b0 d0 u0) (liftS b1 d1 u1) (XQ.fin ay)
-      = (.ok (liftB (mixq b d u a b0 b1 - ay * K_IIIA) (mixq b d u a d0 d1 - (1 - ay) * K_IIIA)
-          (mixq b d u a u0 u1 + K_IIIA) ay), .IIIA2) ∧
-    0 ≤ K_IIIA ∧
-    BWF (mixq b d u a b0 b1 - ay * K_IIIA) (mixq b d u a d0 d1 - (1 - ay) * K_IIIA)
-      (mixq b d u a u0 u1 + K_IIIA) ay :=
-  deduce_case h (deduceK_IIIA2 h hb hd hA hP)
-    (Kq_IIIA h.hy0 h.hy1 hb.le hd (by linarith [pyx_sub_rIII (a := a) (ay := ay) h.c0.hs h.c1.hs]))
-
-/-- Case III.B.1: `b0 ≤ b1`, `d0 > d1`, `pyx > r`, `P ≤ a`; `k = a u (d0-d1)/(1-ay)` -/
-theorem C14_nonneg_IIIB1 (hb : b0 ≤ b1) (hd : d1 < d0) (hB : rIII b0 d1 ay < pyxq a b0 u0 b1 u1 ay)
-    (hP : b + a * u ≤ a) :
+/-- Case III, sub-case B: `b0 ≤ b1`, `d0 > d1`, `pyx > r` (⇔ `kb < ka`), non-dogmatic antecedent;
+    `k = kb = a u (d0-d1)/(1-ay)`, tag `.IIIB` -/
+theorem C14_nonneg_IIIB (hu : 0 < u) (hb : b0 ≤ b1) (hd : d1 < d0) (hB : rIII b0 d1 ay < pyxq a b0 u0 b1 u1 ay) :
     BOp.deduce (liftB (f := f) b d u a) (liftS b0 d0 u0) (liftS b1 d1 u1) (XQ.fin ay)
       = (.ok (liftB (mixq b d u a b0 b1 - ay * K_IIIB) (mixq b d u a d0 d1 - (1 - ay) * K_IIIB)
-          (mixq b d u a u0 u1 + K_IIIB) ay), .IIIB1) ∧
+          (mixq b d u a u0 u1 + K_IIIB) ay), .IIIB) ∧
     0 ≤ K_IIIB ∧
     BWF (mixq b d u a b0 b1 - ay * K_IIIB) (mixq b d u a d0 d1 - (1 - ay) * K_IIIB)
       (mixq b d u a u0 u1 + K_IIIB) ay :=
-  deduce_case h (deduceK_IIIB1 h hb hd hB hP)
-    (Kq_IIIB h.hy0 h.hy1 hb hd (by linarith [pyx_sub_rIII (a := a) (ay := ay) h.c0.hs h.c1.hs]))
+  have hB' : ay * a * (d0 - d1) < (1 - a) * (b1 - b0) * (1 - ay) := by
+    linarith [pyx_sub_rIII (a := a) (ay := ay) h.c0.hs h.c1.hs]
+  deduce_case h (deduceK_IIIB h.x.hu h.hy0 h.hy1 hu hb hd hB') (Kq_IIIB h.hy0 h.hy1 hb hd hB'.le)
 
-/-- Case III.B.2: `b0 ≤ b1`, `d0 > d1`, `pyx > r`, `P > a`; same `k` (the factor `(b1-b0)(1-P)` cancels;
-    `b1 - b0 > 0` by `C14_IIIB_divisor_pos`) -/
-theorem C14_nonneg_IIIB2 (hb : b0 ≤ b1) (hd : d1 < d0) (hB : rIII b0 d1 ay < pyxq a b0 u0 b1 u1 ay)
-    (hP : a < b + a * u) :
-    BOp.deduce (liftB (f := f) b d u a) (liftS b0 d0 u0) (liftS b1 d1 u1) (XQ.fin ay)
-      = (.ok (liftB (mixq b d u a b0 b1 - ay * K_IIIB) (mixq b d u a d0 d1 - (1 - ay) * K_IIIB)
-          (mixq b d u a u0 u1 + K_IIIB) ay), .IIIB2) ∧
-    0 ≤ K_IIIB ∧
-    BWF (mixq b d u a b0 b1 - ay * K_IIIB) (mixq b d u a d0 d1 - (1 - ay) * K_IIIB)
-      (mixq b d u a u0 u1 + K_IIIB) ay :=
-  deduce_case h (deduceK_IIIB2 h hb hd hB hP)
-    (Kq_IIIB h.hy0 h.hy1 hb hd (by linarith [pyx_sub_rIII (a := a) (ay := ay) h.c0.hs h.c1.hs]))
+/-- Non-negativity straight from `K = min(ka, kb)` and the cancellation identities (no case analysis on sub-cases):
+    in Case II `b = bI - ay K ≥ bI - ay ka = b b0 + d b1 + u b1` and `d = dI - (1-ay) K ≥ dI - (1-ay) kb = b d0 + d d1 + u d0`
+    (mirrored in Case III). -/
+theorem C14_nonneg_from_min :
+    0 ≤ mixq b d u a b0 b1 - ay * Kq u a b0 d0 b1 d1 ay ∧
+    0 ≤ mixq b d u a d0 d1 - (1 - ay) * Kq u a b0 d0 b1 d1 ay :=
+  res_nonneg h.x h.c0 h.c1 h.hy0 h.hy1
 
-/-- Umbrella (all ten branches -- Case I, the tie arm, the eight sub-cases --, nothing missing): on the open domain `deduce` returns, together with
+/-- Umbrella (Case I, Case II, Case III, ties included, nothing missing): on the open domain `deduce` returns, together with
     some branch tag, an accepted opinion `liftB rb rd ru ay` whose components are non-negative, at most
     one and add up to one. -/
 theorem C14_nonneg :
@@ -330,9 +379,8 @@ end cases
 /-! ### 5. symmetries -/
 
 /-- `x ↔ ¬x`: negating the antecedent and exchanging the two conditionals leaves the result unchanged.
-    (Case II.s.1 ↔ III.s.2 and II.s.2 ↔ III.s.1; at `P = a` both sides take sub-branch 1, whose closed
-    form equals that of sub-branch 2, and the ties `b0 = b1` / `d0 = d1` fall into Case I on one side and
-    into the tie arm (`k = 0`) on the other — no extra hypothesis.) -/
+    (Case II ↔ Case III with the same two bounds; the ties `b0 = b1` / `d0 = d1` fall into Case I on one side and
+    into a `min` with a vanishing bound (`k = 0`) on the other — no extra hypothesis.) -/
 theorem C14_swap_x (h : Dom14 b d u a b0 d0 u0 b1 d1 u1 ay) :
     (BOp.deduce (BOp.neg (liftB (f := f) b d u a)) (liftS b1 d1 u1) (liftS b0 d0 u0) (XQ.fin ay)).1
       = (BOp.deduce (liftB (f := f) b d u a) (liftS b0 d0 u0) (liftS b1 d1 u1) (XQ.fin ay)).1 := by
@@ -380,14 +428,14 @@ theorem C14_AB_tie_III (h : Dom14 b d u a b0 d0 u0 b1 d1 u1 ay)
 example : Dom14 (1/8) (5/8) (1/4) (1/2) (1/2) (1/4) (1/4) (1/4) (1/2) (1/4) (3/4) := by
   refine ⟨⟨?_, ?_, ?_, ?_, ?_, ?_⟩, ?_, ?_, ?_, ?_, ⟨?_, ?_, ?_, ?_⟩, ⟨?_, ?_, ?_, ?_⟩, ?_, ?_⟩ <;> norm_num
 
-/-- … it satisfies the hypotheses of `C14_nonneg_IIA1` -/
+/-- … it satisfies the hypotheses of `C14_nonneg_IIA` -/
 example : (1/4 : ℚ) < 1/2 ∧ (1/4 : ℚ) ≤ 1/2 ∧
     pyxq (1/2) (1/2) (1/4) (1/4) (1/4) (3/4) ≤ rII (1/4) (1/4) (3/4) ∧ (1/8 : ℚ) + 1/2 * (1/4) ≤ 1/2 := by
   unfold pyxq rII; norm_num
 
-/-- … and the model takes branch II.A.1 on it -/
+/-- … and the model returns the belief bound on it -/
 example : (BOp.deduce (liftB (f := .f64) (1/8) (5/8) (1/4) (1/2)) (liftS (1/2) (1/4) (1/4))
-    (liftS (1/4) (1/2) (1/4)) (XQ.fin (3/4))).2 = .IIA1 := by
+    (liftS (1/4) (1/2) (1/4)) (XQ.fin (3/4))).2 = .IIA := by
   decide +kernel
 
 /-- … with result (9/32, 41/96, 7/24; 3/4): `k = 1/24` -/
@@ -397,22 +445,22 @@ example : (BOp.deduce (liftB (f := f) (1/8) (5/8) (1/4) (1/2)) (liftS (1/2) (1/4
     refine ⟨⟨?_, ?_, ?_, ?_, ?_, ?_⟩, ?_, ?_, ?_, ?_, ⟨?_, ?_, ?_, ?_⟩, ⟨?_, ?_, ?_, ?_⟩, ?_, ?_⟩ <;> norm_num
   have hA : pyxq (1/2) (1/2) (1/4) (1/4) (1/4) (3/4) ≤ rII (1/4) (1/4) (3/4) := by
     unfold pyxq rII; norm_num
-  rw [(C14_nonneg_IIA1 h (by norm_num) (by norm_num) hA (by norm_num)).1]
+  rw [(C14_nonneg_IIA h (by norm_num) (by norm_num) hA).1]
   unfold mixq; norm_num
 
-/-- a Case III.B.2 input in the open domain: x = (5/8, 1/8, 1/4; 1/2), y|x = (1/4, 1/2, 1/4),
+/-- a Case III, sub-case B input in the open domain: x = (5/8, 1/8, 1/4; 1/2), y|x = (1/4, 1/2, 1/4),
     y|¬x = (1/2, 1/4, 1/4), ay = 1/4 -/
 example : Dom14 (5/8) (1/8) (1/4) (1/2) (1/4) (1/2) (1/4) (1/2) (1/4) (1/4) (1/4) := by
   refine ⟨⟨?_, ?_, ?_, ?_, ?_, ?_⟩, ?_, ?_, ?_, ?_, ⟨?_, ?_, ?_, ?_⟩, ⟨?_, ?_, ?_, ?_⟩, ?_, ?_⟩ <;> norm_num
 
-/-- … it satisfies the hypotheses of `C14_nonneg_IIIB2` -/
+/-- … it satisfies the hypotheses of `C14_nonneg_IIIB` -/
 example : (1/4 : ℚ) ≤ 1/2 ∧ (1/4 : ℚ) < 1/2 ∧
     rIII (1/4) (1/4) (1/4) < pyxq (1/2) (1/4) (1/4) (1/2) (1/4) (1/4) ∧ (1/2 : ℚ) < 5/8 + 1/2 * (1/4) := by
   unfold pyxq rIII; norm_num
 
-/-- … and the model takes branch III.B.2 on it -/
+/-- … and the model returns the disbelief bound on it -/
 example : (BOp.deduce (liftB (f := .f64) (5/8) (1/8) (1/4) (1/2)) (liftS (1/4) (1/2) (1/4))
-    (liftS (1/2) (1/4) (1/4)) (XQ.fin (1/4))).2 = .IIIB2 := by
+    (liftS (1/2) (1/4) (1/4)) (XQ.fin (1/4))).2 = .IIIB := by
   decide +kernel
 
 /-- a tie input in the open domain (the binary32 witness of `SLV.Props.Pinned.C14_pinned_deduce_tie_nan` as
@@ -424,9 +472,9 @@ example : Dom14 (3/8) (1/2) (1/8) (1/8) (1/8) 0 (7/8) (127/1024) 0 (897/1024) (4
 example : ¬((127/1024 : ℚ) < 1/8 ↔ (0 : ℚ) < 0) ∧ ((1/8 : ℚ) = 127/1024 ∨ (0 : ℚ) = 0) := by
   norm_num
 
-/-- … and the model takes the tie arm on it -/
-example : (BOp.deduce (liftB (f := .f64) (3/8) (1/2) (1/8) (1/8)) (liftS (1/8) 0 (7/8))
-    (liftS (127/1024) 0 (897/1024)) (XQ.fin (4095/4096))).2 = .Tie := by
+/-- … and the model returns the vanishing disbelief bound on it: `k = 0` -/
+example : (BOp.deduceK (liftB (f := .f64) (3/8) (1/2) (1/8) (1/8)) (liftS (1/8) 0 (7/8))
+    (liftS (127/1024) 0 (897/1024)) (XQ.fin (4095/4096))) = (XQ.fin 0, .IIB) := by
   decide +kernel
 
 /-- a dogmatic antecedent in the open domain (for `C14_dogmatic`) -/
@@ -435,30 +483,31 @@ example : Dom14 (1/4) (3/4) 0 (1/2) (1/2) (1/4) (1/4) (1/4) (1/2) (1/4) (3/4) :=
 
 /-- Remark (outside the property's domain): with antecedent base rate `a = 0` the input x = (1/2, 1/4, 1/4; 0),
     y|x = (1/2, 1/4, 1/4), y|¬x = (1/4, 1/4, 1/2), ay = 1/2 is a Case II input with `d0 = d1`.  Before repair 4d5bbb1 it
-    reached II.A.2, 0/0 = NaN, and the constructor rejected it (`SLV.Props.Pinned.C14_pinned_boundary_a0_rejected`;
-    this theorem used to be `C14_boundary_a0_rejected` and is FALSE for the repaired operator).  It now takes the tie
-    arm and is accepted (an instance of `C14_tie`). -/
+    reached II.A.2, 0/0 = NaN, and the constructor rejected it (`SLV.Props.Pinned.C14_pinned_boundary_a0_rejected`).
+    It is accepted since (tie arm of 4d5bbb1; now both bounds are 0 -- an instance of `C14_tie`). -/
 theorem C14_boundary_a0_tie_accepted :
     (match BOp.deduce (liftB (f := .f64) (1/2) (1/4) (1/4) 0) (liftS (1/2) (1/4) (1/4))
         (liftS (1/4) (1/4) (1/2)) (XQ.fin (1/2)) with
-      | (.ok _, .Tie) => true | _ => false) = true := by
+      | (.ok _, .IIA) => true | _ => false) = true := by
   decide +kernel
 
-/-- Remark (outside the property's domain, shows `0 < P` is needed): x = (0, 1/2, 1/2; 0) has projected probability
-    `P = 0`; with y|x = (1/2, 1/4, 1/4), y|¬x = (1/4, 1/2, 1/4), ay = 1/2 (no tie) it reaches Case II.A.1, whose divisor
-    is `P·ay = 0` under a zero numerator: 0/0 = NaN and the constructor rejects it (the Rust `new` panics), although x
-    and both conditionals are well-formed. -/
-theorem C14_boundary_P0_rejected :
+/-- Remark (outside the property's domain): x = (0, 1/2, 1/2; 0) has projected probability `P = 0`; with
+    y|x = (1/2, 1/4, 1/4), y|¬x = (1/4, 1/2, 1/4), ay = 1/2 (no tie) the nine-branch operator reached II.A.1, whose divisor is
+    `P·ay = 0` under a zero numerator, and rejected (`SLV.Props.Pinned.C14_pinned_boundary_P0_rejected`; this theorem used to
+    be `C14_boundary_P0_rejected` and is FALSE for the repaired operator).  Now `ka = 0·u·(b0-b1)/ay = 0`, `k = 0`, and the
+    result (1/4, 1/2, 1/4; 1/2) is accepted -- an instance of `C14_closed_form_closed`. -/
+theorem C14_boundary_P0_accepted :
     (match BOp.deduce (liftB (f := .f64) 0 (1/2) (1/2) 0) (liftS (1/2) (1/4) (1/4))
         (liftS (1/4) (1/2) (1/4)) (XQ.fin (1/2)) with
-      | (.error _, .IIA1) => true | _ => false) = true := by
+      | (.ok r, .IIA) => decide (r.b = XQ.fin (1/4) ∧ r.d = XQ.fin (1/2) ∧ r.u = XQ.fin (1/4) ∧ r.a = XQ.fin (1/2))
+      | _ => false) = true := by
   decide +kernel
 
 /-- `C14_repaired`: the formerly failing input of the pinned tree
     (x = (1/16, 6/16, 9/16; 1/4), y|x = (0, 10/16, 6/16), y|¬x = (0, 5/16, 11/16), ay = 3/4; kernel-checked
     acceptance: `SLV.Props.Pinned.C14_repaired_accepts` in SLV/Props/Pinned.lean) lies in the open
     domain, so `C14_closed_form` applies to it: `d0 > d1` with `b0 = b1`, hence `k = 0` (via III.A.1 before repair
-    4d5bbb1, via the tie arm since). -/
+    4d5bbb1, via the tie arm after it, as `min(0, kb)` since b163717). -/
 theorem C14_repaired :
     Dom14 (1/16) (6/16) (9/16) (1/4) 0 (10/16) (6/16) 0 (5/16) (11/16) (3/4) ∧
     Kq (9/16) (1/4) 0 (10/16) 0 (5/16) (3/4) = 0 := by
